@@ -38,10 +38,10 @@ struct State {
 }
 
 const BORROWED_RETURNS: [&str; 4] = ["c_ref", "c_mut", "c_group_ref", "c_group_mut"];
-const N_FAMILIES: usize = factory::N_SINGLE + 4;
+const N_FAMILIES: usize = factory::N_SINGLE + 5;
 
 fn family_name(f: usize) -> &'static str {
-    ["Basic", "ReadOnly", "Shapes", "IntRes", "Consume", "Children", "ChildrenMore", "GrpA", "GrpR", "GrpB", "GrpC"][f]
+    ["Basic", "ReadOnly", "Shapes", "IntRes", "Consume", "Children", "ChildrenMore", "GrpA", "GrpR", "GrpB", "GrpD", "GrpC"][f]
 }
 
 fn create_pair(st: &mut State, family: usize, mask: u32, cont: usize, ctxsel: usize) -> Option<Pair> {
@@ -477,9 +477,9 @@ impl Engine for ObjEngine {
         }
         // family pool of this run (swarm)
         let fam_pool: Vec<i64> = match f.as_str() {
-            "casts" => vec![7, 8, 9, 9, 9, 10, 10],
-            "intres" => vec![3, 3, 3, 7, 8, 6, 10],
-            "ctx" => vec![5, 5, 6, 9, 9, 10, 4, 0, 7],
+            "casts" => vec![7, 8, 9, 9, 9, 10, 11, 11],
+            "intres" => vec![3, 3, 3, 7, 8, 6, 11],
+            "ctx" => vec![5, 5, 6, 9, 9, 11, 4, 0, 7, 10],
             _ => (0..N_FAMILIES as i64).collect(),
         };
         let ctx_mode = rng.below(4); // 0: mixed, 1: none, 2: arc only, 3: mixed without borrowed children
